@@ -3,7 +3,8 @@
 //!
 //! An f32 rate is `m * 2^e` with an integer `m < 2^24`; `1/rate = 2^s / m` with `s = -e`. For rates
 //! at or above 2^-63, `s <= 86`, so `2^s`, its quotient and remainder by `m` and every product below
-//! fit in 128 bits. No floating-point operation takes part in a verdict.
+//! fit in 128 bits. The only floating-point operation behind a verdict is the exact scaling
+//! `alpha * 2^53` (and its ceiling) that counts the draws below alpha.
 use crate::script::Fixed64;
 use metrique_writer_format_emf::{__verif_rate_to_n, __verif_rate_to_n_alpha};
 use serde_json::{Value, json};
